@@ -50,6 +50,7 @@ class Opts:
         self.steps_out_of_file_order = False  # ProfilerStep annotations are written after the operators, latest first
         self.n_extra_ops = None  # number of run-specific operator names (None: 0-3); large values give a wide vocabulary
         self.p_dual_cat = 0.0  # an operator name also occurs as a user_annotation (same name, two categories)
+        self.corr_start = 100  # correlation ids are counted from corr_start + 1 (-1: the first pair of the file carries id 0, as runs numbered from 0 do)
         self.main_tid = 1  # thread id of the thread holding the profiler steps
         self.other_tids_below = False  # the other host threads get SMALLER ids than the main thread (their call stacks are then built first)
         self.step_base = 10  # number of the first ProfilerStep annotation (9 makes the numbers cross a digit boundary: 9, 10, 11)
@@ -74,7 +75,7 @@ def gen_rank(rng: random.Random, o: Opts, rank: int = 0) -> List[Dict[str, Any]]
         kernel_names = [k for k in KERNEL_NAMES if not k.startswith("nccl") and not k.startswith("Mem")]
     elif o.only_kernel_type == "comm":
         kernel_names = [k for k in KERNEL_NAMES if k.startswith("nccl")]
-    corr = [100 + (10_000 * rank if o.distinct_corr_per_rank else 0)]
+    corr = [o.corr_start + (10_000 * rank if o.distinct_corr_per_rank else 0)]
     stream_free = {7 + s: o.base for s in range(o.n_streams)}
     kernels: List[Dict[str, Any]] = []
 
